@@ -218,6 +218,16 @@ pub fn run(ctx: &Ctx) -> Report {
             let mut h = midi::gen_bytes(&mut r, if small { 120 } else { 600 });
             h.channel_arg = r.below(256) as u8;
             midi::run_and_record(&h, want, &mut rep, sh == 0 && j < 1);
+            if j % 4 == 0 {
+                // note floods: the 32-entry held-note buffer filled and overrun, long melodies over held keys
+                let h = match j % 12 {
+                    0 => midi::gen_full_buffer(&mut r, true),
+                    4 => midi::gen_drone_melody(&mut r, if small { 30 } else { 300 }, true),
+                    _ => midi::gen_notes_x(&mut r, if small { 60 } else { 300 }, 0.2, false, true),
+                };
+                midi::run_and_record(&h, want, &mut rep, false);
+                rep.count("c17.midi.note_flood_histories", 1);
+            }
         }
         rep
     });
@@ -267,6 +277,7 @@ pub fn run(ctx: &Ctx) -> Report {
         }
         rep.floor("c17.adsr.envelopes_run_to_sustain_and_rest", 1000);
         rep.floor("midi.bytes", 1_000_000);
+        rep.floor("c17.midi.note_flood_histories", 500);
         rep.floor("adsr.completed_phase_Tfs.lt1", 50);
         rep.floor("ribbon.presses", 200);
         rep.floor("glide.holds", 1000);
